@@ -819,6 +819,30 @@ func execExec(input sx.S) (obs sx.S) {
 			}
 		}
 	}
+	printed := func() string {
+		if exe == nil {
+			return ""
+		}
+		names := []string{}
+		for k := range exe.Ops {
+			names = append(names, k)
+		}
+		sort.Strings(names)
+		var b strings.Builder
+		for _, k := range names {
+			b.WriteString(exe.Ops[k].String())
+		}
+		fn := []string{}
+		for k := range exe.Fragments {
+			fn = append(fn, k)
+		}
+		sort.Strings(fn)
+		for _, k := range fn {
+			b.WriteString(exe.Fragments[k].String())
+		}
+		return b.String()
+	}
+	before := printed()
 	outs := []sx.S{}
 	for _, c := range section(secs, "calls") {
 		cl := sx.List(c)
@@ -854,6 +878,11 @@ func execExec(input sx.S) (obs sx.S) {
 			data = canonData(result["data"])
 		}
 		outs = append(outs, sx.L("resp", data, sortSexps(errs), append([]sx.S{}, w.calls...)))
+	}
+	if printed() == before {
+		outs = append(outs, sx.L("printed", "same"))
+	} else {
+		outs = append(outs, sx.L("printed", "changed"))
 	}
 	return outs
 }
